@@ -16,6 +16,9 @@ Open Scope N_scope.
 
 Definition pwd := list N.              (* password bytes *)
 Definition pepper := option (list N).  (* AuthConfig.pepper *)
+(* create_argon2_instance: the Argon2 secret; no pepper is the empty secret (Argon2::default) — and to Argon2 an empty
+   pepper IS no pepper (checked on the real crate: a hash made under Some("") verifies under None and vice versa) *)
+Definition secret_of (p : pepper) : list N := match p with Some s => s | None => [] end.
 
 (* AuthError classes; 401 is the response of the auth route *)
 Definition EGeneric : N := 1.
@@ -64,8 +67,8 @@ Inductive op :=
 
 Section Model.
   Variable H : Type.                                   (* PHC hash strings *)
-  Variable hash : pwd -> N -> pepper -> H.             (* Argon2 hash_password with salt and optional secret *)
-  Variable verify_hash : H -> pwd -> pepper -> bool.   (* Argon2 verify_password *)
+  Variable hash : pwd -> N -> list N -> H.             (* Argon2 hash_password with salt and secret *)
+  Variable verify_hash : H -> pwd -> list N -> bool.   (* Argon2 verify_password under a secret *)
 
   Record user := mkUser { uid : N; session : option sess; phash : H }.
   Record state := mkState { users : list user; cfg : config }.
@@ -186,7 +189,7 @@ Section Model.
     match o with
     | CreateUser pw fu salt =>
       (* User::create: uid, salt, hash with the configured pepper; then add_user *)
-      let nu := mkUser fu None (hash pw salt (c_pepper (cfg s))) in
+      let nu := mkUser fu None (hash pw salt (secret_of (c_pepper (cfg s)))) in
       match add_user (users s) nu with
       | Some db' => (with_db s db', Ok (VId fu))
       | None => (s, Err EUserExists)
@@ -195,7 +198,7 @@ Section Model.
       (s, Ok (VBool (match get_user_by_uid (users s) u with Some _ => true | None => false end)))
     | Verify u pw =>
       (s, Ok (VBool (match get_user_by_uid (users s) u with
-                     | Some x => verify_hash (phash x) pw (c_pepper (cfg s))
+                     | Some x => verify_hash (phash x) pw (secret_of (c_pepper (cfg s)))
                      | None => false
                      end)))
     | RemoveUser u =>
@@ -268,7 +271,7 @@ Arguments mkState {H} _ _.
    as a total function, and the allowed transitions as a relation. Nothing here mentions lists, hashes,
    search order or panics. A new map is described pointwise, so no function extensionality is needed. *)
 
-Record rentry := mkEntry { e_pw : pwd; e_pep : pepper; e_sess : option sess }.
+Record rentry := mkEntry { e_pw : pwd; e_pep : list N; e_sess : option sess }.
 Record rstate := mkR { r_map : N -> option rentry; r_cfg : config }.
 
 Definition rinit (c : config) : rstate := mkR (fun _ => None) c.
@@ -300,7 +303,7 @@ Inductive rcreate (r : rstate) (u life now now2 tok : N) : rstate -> out -> Prop
 
 Inductive rstep (r : rstate) : op -> rstate -> out -> Prop :=
 | rs_create_user_ok pw fu salt r' :
-    r_map r fu = None -> upd r fu (Some (mkEntry pw (c_pepper (r_cfg r)) None)) r' ->
+    r_map r fu = None -> upd r fu (Some (mkEntry pw (secret_of (c_pepper (r_cfg r))) None)) r' ->
     rstep r (CreateUser pw fu salt) r' (Ok (VId fu))
 | rs_create_user_clash pw fu salt r' :
     r_map r fu <> None -> same r r' -> rstep r (CreateUser pw fu salt) r' (Err EUserExists)
@@ -308,7 +311,7 @@ Inductive rstep (r : rstate) : op -> rstate -> out -> Prop :=
     same r r' -> (b = true <-> r_map r u <> None) -> rstep r (Exists u) r' (Ok (VBool b))
 | rs_verify u pw r' b :
     same r r' ->
-    (b = true <-> exists e, r_map r u = Some e /\ e_pw e = pw /\ e_pep e = c_pepper (r_cfg r)) ->
+    (b = true <-> exists e, r_map r u = Some e /\ e_pw e = pw /\ e_pep e = secret_of (c_pepper (r_cfg r))) ->
     rstep r (Verify u pw) r' (Ok (VBool b))
 | rs_remove_ok u r' : r_map r u <> None -> upd r u None r' -> rstep r (RemoveUser u) r' (Ok VUnit)
 | rs_remove_nouser u r' : r_map r u = None -> same r r' -> rstep r (RemoveUser u) r' (Err EUserNotFound)
@@ -351,7 +354,7 @@ Inductive rrun : rstate -> list op -> list out -> rstate -> Prop :=
 (* ---- the simulation relation between the list-based model and the reference map ---- *)
 Section Simulation.
   Variable H : Type.
-  Variable hash : pwd -> N -> pepper -> H.
+  Variable hash : pwd -> N -> list N -> H.
 
   (* uids are unique in the stored list *)
   Definition wf (db : list (user H)) : Prop := NoDup (map uid db).
@@ -441,16 +444,16 @@ Definition tok_event (t : N) (acc : config * option (N * N)) (ev : event) : conf
 Definition tok_status (c : config) (h : list event) (t : N) : option (N * N) :=
   snd (fold_left (tok_event t) h (c, None)).
 
-(* acc = (configuration in force, Some (password, pepper in force at creation) if uid u currently exists) *)
-Definition cred_event (u : N) (acc : config * option (pwd * pepper)) (ev : event) : config * option (pwd * pepper) :=
+(* acc = (configuration in force, Some (password, Argon2 secret in force at creation) if uid u currently exists) *)
+Definition cred_event (u : N) (acc : config * option (pwd * list N)) (ev : event) : config * option (pwd * list N) :=
   let (c, st) := acc in
   match ev with
-  | (CreateUser pw fu _, Ok _) => (c, if fu =? u then Some (pw, c_pepper c) else st)
+  | (CreateUser pw fu _, Ok _) => (c, if fu =? u then Some (pw, secret_of (c_pepper c)) else st)
   | (RemoveUser u', Ok _) => (c, if u' =? u then None else st)
   | (SetConfig c', _) => (c', st)
   | _ => acc
   end.
-Definition cred_status (c : config) (h : list event) (u : N) : option (pwd * pepper) :=
+Definition cred_status (c : config) (h : list event) (u : N) : option (pwd * list N) :=
   snd (fold_left (cred_event u) h (c, None)).
 
 (* operations that present a token for authentication, with the time of the (first) clock read *)
@@ -491,8 +494,8 @@ Definition issued (h : list event) : list N := flat_map issued_by h.
 
 (* ================================================================================================
    Executable instance used by the correspondence check: the "hash" is the triple itself. *)
-Definition xH : Type := (pwd * N * pepper)%type.
-Definition xhash (pw : pwd) (salt : N) (pep : pepper) : xH := (pw, salt, pep).
+Definition xH : Type := (pwd * N * list N)%type.
+Definition xhash (pw : pwd) (salt : N) (pep : list N) : xH := (pw, salt, pep).
 
 Fixpoint list_eqb (a b : list N) : bool :=
   match a, b with
@@ -500,14 +503,8 @@ Fixpoint list_eqb (a b : list N) : bool :=
   | x :: a', y :: b' => (x =? y) && list_eqb a' b'
   | _, _ => false
   end.
-Definition pepper_eqb (a b : pepper) : bool :=
-  match a, b with
-  | None, None => true
-  | Some x, Some y => list_eqb x y
-  | _, _ => false
-  end.
-Definition xverify (h : xH) (pw : pwd) (pep : pepper) : bool :=
-  list_eqb pw (fst (fst h)) && pepper_eqb pep (snd h).
+Definition xverify (h : xH) (pw : pwd) (pep : list N) : bool :=
+  list_eqb pw (fst (fst h)) && list_eqb pep (snd h).
 
 Definition xstate := state xH.
 Definition xinit (c : config) : xstate := init xH c.
